@@ -48,6 +48,7 @@ Proof.
   intros B He Al. inversion Al; subst; cbn [tx_of entry_uid is_raw].
   - right. split; [reflexivity|]. exact (proj2 (kb_sub _ _ _ B _ _ He eq_refl)).
   - right. split; [reflexivity|]. exact (proj2 (kb_sub _ _ _ B _ _ He eq_refl)).
+  - right. split; [reflexivity|]. exact (proj2 (kb_sub _ _ _ B _ _ He eq_refl)).
   - left. split; [reflexivity|discriminate].
   - left. split; [reflexivity|discriminate].
   - destruct (u =? 0) eqn:E; [left|right]; (split; [reflexivity|]); [apply Nat.eqb_eq in E; auto|apply Nat.eqb_neq in E; auto].
@@ -90,9 +91,9 @@ Lemma KT_submit S w P o :
   KT w [] (P ++ [op_entry o]).
 Proof.
   intros B [] Hlt Hpos. cbn [List.app] in *. split; auto.
-  - intros e He Re Ne x Hx. apply in_app_or in He as [He|[<-|[]]]; [eauto|].
+  - intros e He Re Ne x Hx. cbn [List.app] in He. apply in_app_or in He as [He|[<-|[]]]; [eauto|].
     rewrite op_entry_uid. apply request_tx_In in Hx as (j & p & r & Hin & <-).
     destruct (kb_wuid _ _ _ B _ _ _ Hin) as [Z|Z]; [lia|auto].
-  - intros e He Re Ne. apply in_app_or in He as [He|[<-|[]]]; [eauto|].
+  - intros e He Re Ne. cbn [List.app] in He. apply in_app_or in He as [He|[<-|[]]]; [eauto|].
     destruct o; discriminate.
 Qed.
